@@ -115,6 +115,81 @@ pub fn scenario(seed: u64, sticky: bool, max_points: u64) -> RunOutcome {
     o
 }
 
+/// A fixed, representative file-I/O history in which EVERY step is a target in turn (seeded histories rarely
+/// pick reads, seeks and truncates): all fault positions of all steps, on a swarm-drawn volume.
+pub fn scripted(seed: u64) -> RunOutcome {
+    let mut r = Rng::new(seed);
+    let mut fl = props::base_flavor("C09");
+    fl.oracles = Oracles { io_errors: true, ..Default::default() };
+    fl.max_cluster_bytes = 4096;
+    fl.fat_w = [4, 3, 3];
+    fl.ballast_pct = 30;
+    let cfg = props::draw_cfg(&mut r, &fl);
+    let c = u32::from(cfg.vol.spc) * u32::from(cfg.vol.bps);
+    let mk = |op: Op| Step { c: 0, op, hard_at: None, sticky: false };
+    let script: Vec<Step> = vec![
+        mk(Op::CreateDir { base: 0, path: "dir".into(), keep: Some(1) }),
+        mk(Op::CreateFile { base: 1, path: "a long file name.bin".into(), keep: Some(0) }),
+        mk(Op::Write { f: 0, len: 2 * c + 17, fill: r.next_u64() }),
+        mk(Op::Seek { f: 0, whence: 0, off: 5 }),
+        mk(Op::Read { f: 0, len: c + 9 }),
+        mk(Op::Seek { f: 0, whence: 2, off: 0 }),
+        mk(Op::Seek { f: 0, whence: 0, off: i64::from(c) + 1 }),
+        mk(Op::Write { f: 0, len: 100, fill: r.next_u64() }),
+        mk(Op::Seek { f: 0, whence: 1, off: -3 }),
+        mk(Op::Truncate { f: 0 }),
+        mk(Op::Flush { f: 0 }),
+        mk(Op::Write { f: 0, len: c + 5, fill: r.next_u64() }),
+        mk(Op::SetTime { f: 0, which: 1, t: crate::clock::MAX_STAMP }),
+        mk(Op::CloseFile { f: 0 }),
+        mk(Op::OpenFile { base: 0, path: "DIR/A LONG FILE NAME.BIN".into(), slot: 1 }),
+        mk(Op::Read { f: 1, len: 3 * c }),
+        mk(Op::Seek { f: 1, whence: 0, off: 0 }),
+        mk(Op::Truncate { f: 1 }),
+        mk(Op::CloseFile { f: 1 }),
+        mk(Op::List { base: 1 }),
+        mk(Op::Rename { sbase: 1, spath: "a long file name.bin".into(), dbase: 0, dpath: "moved.bin".into() }),
+        mk(Op::Stats),
+        mk(Op::Status),
+        mk(Op::Label),
+        mk(Op::Remove { base: 0, path: "moved.bin".into() }),
+        mk(Op::Remove { base: 0, path: "dir".into() }),
+    ];
+    let mut o = RunOutcome::empty();
+    o.evaluations = 0;
+    let mut src = ReplaySource { steps: script.clone(), i: 0 };
+    let base = exec::run(cfg.clone(), "C09", &mut src, script.len() + 1);
+    if let Some(v) = base.violation {
+        let rep = Replay { property: "C09".into(), kind: "engine".into(), seed, cfg, steps: script, violation: Some(v.clone()) };
+        o.violation = Some((v, rep));
+        return o;
+    }
+    for t in 0..script.len() {
+        let n = base.step_calls.get(t).copied().unwrap_or(0);
+        if n == 0 {
+            continue;
+        }
+        *o.counters.entry(format!("scripted_target:{}", op_kind(&script[t].op))).or_insert(0) += 1;
+        for k in 1..=n.min(600) {
+            let mut steps: Vec<Step> = script[..=t].to_vec();
+            steps[t].hard_at = Some(k);
+            let mut src = ReplaySource { steps: steps.clone(), i: 0 };
+            let res = exec::run(cfg.clone(), "C09", &mut src, steps.len() + 1);
+            o.evaluations += 1;
+            o.stats.fired.hard += res.stats.fired.hard;
+            o.distinct.push(crate::rng::hash_bytes(k, format!("s{}:{}", t, n).as_bytes()) ^ seed);
+            *o.counters.entry(format!("fault_points:{}", op_kind(&script[t].op))).or_insert(0) += 1;
+            if let Some(v) = res.violation {
+                let rep = Replay { property: "C09".into(), kind: "engine".into(), seed, cfg: cfg.clone(), steps, violation: Some(v.clone()) };
+                o.violation = Some((v, rep));
+                return o;
+            }
+        }
+    }
+    o.sample = Some(json!({"seed": seed, "config": props::cfg_summary(&cfg), "scripted_history_steps": script.len()}));
+    o
+}
+
 fn fresh_disk(store: Store) -> Rc<RefCell<DiskState>> {
     let st = Rc::new(RefCell::new(DiskState::new(store)));
     st.borrow_mut().log_mode = LogMode::Meta;
@@ -316,8 +391,10 @@ pub fn lifecycle(seed: u64) -> RunOutcome {
 }
 
 pub fn batches(tier: &str, seed: u64) -> Vec<Batch<'static>> {
-    let (n1, n2, n3, pts) = if tier == "quick" { (700u64, 200u64, 500u64, 150u64) } else { (150_000, 40_000, 30_000, 4000) };
+    let (n1, n2, n3, pts) = if tier == "quick" { (600u64, 150u64, 400u64, 150u64) } else { (150_000, 40_000, 30_000, 4000) };
+    let n4 = if tier == "quick" { 16u64 } else { 3000 };
     vec![
+        Batch { name: "representative file-I/O + namespace script, every step a target, every fault position".into(), runs: n4, f: Box::new(move |i| scripted(crate::rng::run_seed(seed, 14, i))) },
         Batch { name: "single-fault enumeration over seeded histories".into(), runs: n1, f: Box::new(move |i| scenario(crate::rng::run_seed(seed, 11, i), false, pts)) },
         Batch { name: "device dies at call k (sticky) over seeded histories".into(), runs: n2, f: Box::new(move |i| scenario(crate::rng::run_seed(seed, 12, i), true, pts)) },
         Batch { name: "mount / unmount / drop / format_volume enumeration".into(), runs: n3, f: Box::new(move |i| lifecycle(crate::rng::run_seed(seed, 13, i))) },
